@@ -46,7 +46,7 @@ package block
 //@   ensures [never-back] pb.lastHeight >= old(pb.lastHeight)
 
 //@ func submitToDA[T](m, ctx, items, marshalFn, postSubmit, itemType) (err)
-//@   property C06 C07
+//@   property C06 C07 C08
 //@   modifies m.headerCache.daInc, m.headerCache.daIncHas, m.dataCache.daInc, m.dataCache.daIncHas,
 //@            m.pendingHeaders.base.lastHeight, m.pendingData.base.lastHeight, durable m.store.meta, durable m.store.metaHas
 //@   requires [same-store] m.pendingHeaders.base.store == m.store && m.pendingData.base.store == m.store
@@ -75,7 +75,7 @@ package block
 //@   ensures [marshal] err == nil ==> val(bz) == coreda_Marshal(header)
 
 //@ func (m *Manager) submitHeadersToDA$2(submitted, res, gasPrice)
-//@   property C06 C07
+//@   property C06 C07 C08
 //@   modifies m.headerCache.daInc, m.headerCache.daIncHas, m.pendingHeaders.base.lastHeight,
 //@            durable m.pendingHeaders.base.store.meta[m.pendingHeaders.base.metaKey], durable m.pendingHeaders.base.store.metaHas[m.pendingHeaders.base.metaKey]
 //@   requires [success-only] res != nil && res.Code == coreda.StatusSuccess
@@ -94,7 +94,7 @@ package block
 //@   ensures [marshal] err == nil ==> val(bz) == coreda_Marshal(signedData)
 
 //@ func (m *Manager) submitDataToDA$2(submitted, res, gasPrice)
-//@   property C06 C07
+//@   property C06 C07 C08
 //@   modifies m.dataCache.daInc, m.dataCache.daIncHas, m.pendingData.base.lastHeight,
 //@            durable m.pendingData.base.store.meta[m.pendingData.base.metaKey], durable m.pendingData.base.store.metaHas[m.pendingData.base.metaKey]
 //@   requires [success-only] res != nil && res.Code == coreda.StatusSuccess
